@@ -324,7 +324,7 @@ def mutate(p, rng, n_edits=2):
 
 def subset(p, names):
     """Restrict a parsed source to `names` (zones) plus the rules and links they need."""
-    zones = {n: [list(e) for e in p["zones"][n]] for n in names if n in p["zones"]}
+    zones = {n: [list(e) for e in p["zones"][n]] for n in sorted(names) if n in p["zones"]}   # sorted: independent of the hash seed
     used = {e[1] for eras in zones.values() for e in eras}
     rules = {r: [list(x) for x in v] for r, v in p["rules"].items() if r in used}
     links = {l: t for l, t in p["links"].items() if t in zones}
